@@ -31,7 +31,7 @@ from checks import C07
 CHECKER = ("make -C coq Gates.vo Validate.vo ValidateProofs.vo Gen_C12.vo (coqc 8.16.1 kernel; vm_compute of prepare, the call-graph "
            "fixpoints and the predicates on the regenerated table) ; coqc Properties_C12.v (Print Assumptions)")
 BACKENDS = ["adf", "hdf5"]
-STATES = ["rich12", "unstr", "bare12"]
+STATES = ["rich12", "unstr", "bare12", "str2d"]
 MODES = {"read": 0, "write": 1, "modify": 2}
 JOBS = 4
 
@@ -114,6 +114,106 @@ def arg_for12(fname, i, pn, pt, writer):
     return v, kind, inv
 
 
+# ------------------------------------------------------------------------------------------------ state-driven bounds
+# Values just inside / just outside every bound that zone (1,1) of the OPEN file implies; the driver reads the zone before the
+# call (harness/c12_drv.c: probe12 -> g_nv, g_nc, g_vd[], g_cd[], g_idim, g_cdim, section 1, particle zone 1, node size).
+# must = 1 only where the catalogue below knows a rule (SIDS, stated in notes/C12.md section 10); everything else is a "may":
+# the call may succeed, but when it fails nothing may have changed and no sanitizer may fire.
+#   R1 GridConnectivity_t: a PointList has at most as many entries as the zone has vertices (Vertex) / cells (CellCenter)
+#   R2 GridConnectivity1to1_t: PointRange inside [1, VertexSize]; R6: range and donor range span the same number of points
+#   R3 partial / general access to coordinates, solutions, particle data: rmin >= 1 - rind, rmax <= size + rind at the
+#      location of the data (vertex or cell sizes; the templates have no rind planes)
+#   R4 Elements_t: ElementSizeBoundary <= number of elements of the section
+#   R5 Zone_t, Structured: CellSize = VertexSize - 1 in every index dimension
+#   R7 OversetHoles_t: PointRange => 2 points per point set, PointList => one point set
+#   R8 ZoneSubRegion_t: RegionCellDimension <= CellDimension of the base
+#   R9 cgio block access: 1 <= b_start <= b_end <= number of values of the node
+BIGN = "(g_nv > g_nc ? g_nv : g_nc + 1)"          # "as many as there are vertices" (more than the cells in every template)
+
+
+def bound_variants(name, params, vals):
+    pn = [p[0] for p in params]
+    ix = {n: i for i, n in enumerate(pn)}
+    out = []
+
+    def add(cls, primary, must, **kw):
+        argv = [x[0] for x in vals]
+        for k, ex in kw.items():
+            if k in ix:
+                argv[ix[k]] = ex
+        out.append(("%s:%s=bound" % (cls, primary), argv, must, ix[primary], primary, cls))
+
+    conn = name in ("cg_conn_write", "cg_conn_write_short")
+    if {"ptset_type", "npnts", "pnts"} <= set(pn) and not name.startswith("cg_particle"):
+        locs = [("Vertex", "CGNS_ENUMV(Vertex)", 0), ("CellCenter", "CGNS_ENUMV(CellCenter)", 1)] if "location" in ix else [("", None, 0)]
+        for lname, lex, cell in locs:
+            for tag, ex, over_v, over_c in (("ncells", "g_nc", 0, 0), ("ncells+1", "(g_nc + 1)", 0, 1), ("nvertices", BIGN, 0, 1), ("nvertices+1", "(g_nv + 1)", 1, 1)):
+                must = 1 if conn and (over_c if cell else over_v) else 0
+                kw = dict(ptset_type="CGNS_ENUMV(PointList)", npnts=ex, pnts="BIGP", ndata_donor=ex, donor_data="BIGP", nptsets="1")
+                if lex:
+                    kw["location"] = lex
+                add("bound-list-%s%s" % (tag, "@" + lname if lname else ""), "npnts", must, **kw)
+            # a PointRange one plane outside the zone (rind planes may make it legal: a "may")
+            kw = dict(ptset_type="CGNS_ENUMV(PointRange)", npnts="2", nptsets="1")
+            if lex:
+                kw["location"] = lex
+            add("bound-range-end+1%s" % ("@" + lname if lname else ""), "pnts", 0, pnts="RNGV(%d, 0, 1)" % cell, **kw)
+            add("bound-range-start-0%s" % ("@" + lname if lname else ""), "pnts", 0, pnts="RNGV(%d, -1, 0)" % cell, **kw)
+    if name == "cg_conn_write":
+        add("bound-donor-npnts+1", "ndata_donor", 0, ptset_type="CGNS_ENUMV(PointList)", npnts="2", pnts="BIGP", ndata_donor="3", donor_data="BIGP")
+    if name == "cg_particle_sol_ptset_write":
+        for tag, ex in (("size", "g_psz"), ("size+1", "(g_psz + 1)")):
+            add("bound-list-" + tag, "npnts", 0, ptset_type="CGNS_ENUMV(PointList)", npnts=ex, pnts="BIGP")
+    if name == "cg_hole_write":
+        add("bound-hole-2sets-2points", "npnts", 1, ptset_type="CGNS_ENUMV(PointRange)", nptsets="2", npnts="2", pnts="BIGP")
+        add("bound-hole-1set-4points", "npnts", 1, ptset_type="CGNS_ENUMV(PointRange)", nptsets="1", npnts="4", pnts="BIGP")
+        add("bound-hole-list-2sets", "nptsets", 1, ptset_type="CGNS_ENUMV(PointList)", nptsets="2", npnts="2", pnts="BIGP")
+    if name == "cg_subreg_ptset_write":
+        add("bound-dimension-celldim", "dimension", 0, dimension="g_cdim")
+        add("bound-dimension-celldim+1", "dimension", 1, dimension="(g_cdim + 1)")
+    if name == "cg_1to1_write":
+        add("bound-range-full", "range", 0, range="RNGV(0, 0, 0)", donor_range="RNGV(0, 0, 0)")
+        add("bound-range-end+1", "range", 1, range="RNGV(0, 0, 1)", donor_range="RNGV(0, 0, 1)")
+        add("bound-range-start-0", "range", 1, range="RNGV(0, -1, 0)", donor_range="RNGV(0, -1, 0)")
+        add("bound-donor-extent", "donor_range", 1, range="RNGV(0, 0, 0)", donor_range="RNGV(0, 0, -1)")
+    if name == "cg_zone_write":
+        add("bound-cells=vertices", "size", 1, size="ZS_EQ", type="CGNS_ENUMV(Structured)")
+        add("bound-cells=vertices-2", "size", 1, size="ZS_M2", type="CGNS_ENUMV(Structured)")
+        add("bound-cells=vertices-1", "size", 0, size="ZS_OK", type="CGNS_ENUMV(Structured)")
+    # ranges into coordinates / solutions / particle data
+    rmin = "rmin" if "rmin" in ix else "s_rmin" if "s_rmin" in ix else None
+    rmax = "rmax" if "rmax" in ix else "s_rmax" if "s_rmax" in ix else None
+    if rmin and rmax and re.match(r"cg_(particle_)?(coord|field)_", name):
+        mem = lambda e: dict(m_numdim="g_idim", m_dims=e, m_dimvals=e, m_rmin="SZ_ONES", m_rmax=e)
+        if name.startswith("cg_particle"):
+            mem1 = lambda e: dict(m_dims=e, m_rmin="SZ_ONES", m_rmax=e)
+            add("bound-max-size", rmax, 0, **{rmin: "SZ_ONES", rmax: "VEC1(g_psz)"}, **mem1("VEC1(g_psz)"))
+            add("bound-max-size+1", rmax, 1, **{rmin: "SZ_ONES", rmax: "VEC1(g_psz + 1)"}, **mem1("VEC1(g_psz + 1)"))
+            add("bound-min-0", rmin, 1, **{rmin: "SZ_ZERO", rmax: "VEC1(g_psz)"}, **mem1("VEC1(g_psz)"))
+        else:
+            sols = [("", None, 0)] if "S" not in ix else [("@Vertex", "1", 0), ("@CellCenter", "2", 1)]
+            for tag, sx, cell in sols:
+                kw = {"S": sx} if sx else {}
+                add("bound-max-size" + tag, rmax, 0, **{rmin: "SZ_ONES", rmax: "DIMV(%d, 0)" % cell}, **mem("DIMV(%d, 0)" % cell), **kw)
+                add("bound-max-size+1" + tag, rmax, 1, **{rmin: "SZ_ONES", rmax: "DIMV(%d, 1)" % cell}, **mem("DIMV(%d, 1)" % cell), **kw)
+                add("bound-min-0" + tag, rmin, 1, **{rmin: "SZ_ZERO", rmax: "DIMV(%d, 0)" % cell}, **mem("DIMV(%d, 0)" % cell), **kw)
+                if cell:
+                    add("bound-max-vertexsize" + tag, rmax, 1, **{rmin: "SZ_ONES", rmax: "DIMV(0, 0)"}, **mem("DIMV(0, 0)"), **kw)
+    # element sections
+    if "nbndry" in ix and "start" in ix and "end" in ix:
+        add("bound-nbndry-nelem", "nbndry", 0, start="1", end="2", nbndry="2")
+        add("bound-nbndry-nelem+1", "nbndry", 1, start="1", end="2", nbndry="3")
+    if "S" in ix and "start" in ix and "end" in ix and re.search(r"partial_write|general_write", name):
+        add("bound-elements-section-range", "end", 0, start="g_s1s", end="g_s1e")
+        add("bound-elements-after-section", "start", 0, start="(g_s1e + 1)", end="(g_s1e + 1)")
+        add("bound-elements-before-section", "start", 0, start="(g_s1s - 1)", end="g_s1s")
+    if name in ("cgio_write_block_data", "cgio_read_block_data_type"):
+        add("bound-block-end-size", "b_end", 0, b_start="1", b_end="g_nd2")
+        add("bound-block-end-size+1", "b_end", 1, b_start="1", b_end="(g_nd2 + 1)")
+        add("bound-block-start-0", "b_start", 1, b_start="0", b_end="1")
+    return out
+
+
 def ctx_of12(name, params):
     for rx, c in CTX_RULES12:
         if re.search(rx, name):
@@ -126,7 +226,12 @@ def gen_stubs(d, path):
     (position, invalid class).  -> (entries, static_only)"""
     api = [a for a in d["api"] if a["defined"]]
     protos = d["protos"]
-    out, entries, static_only = ["static cgsize_t SZ_NEG[64] = {[0 ... 63] = -1000};"], [], {}
+    out, entries, static_only = ["static cgsize_t SZ_NEG[64] = {[0 ... 63] = -1000};",
+                                 "static cgsize_t ZS_EQ[9] = {3,3,3,3,3,3,0,0,0}, ZS_M2[9] = {3,3,3,1,1,1,0,0,0}, ZS_OK[9] = {3,3,3,2,2,2,0,0,0};",
+                                 "/* defined in c12_drv.c (facts about zone (1,1) of the open file) */",
+                                 "static cgsize_t g_vd[3], g_cd[3], g_nv, g_nc, g_s1s, g_s1e, g_psz, g_nd2, BIGP[3 * 4096]; static int g_idim, g_cdim;",
+                                 "static const cgsize_t *DIMV(int cell, int d0); static const cgsize_t *RNGV(int cell, int dlo, int dhi); "
+                                 "static const cgsize_t *VEC1(cgsize_t a);"], [], {}
     for a in api:
         name = a["name"]
         pr = protos[name]
@@ -172,6 +277,8 @@ def gen_stubs(d, path):
             fi = [p[0] for p in params].index("filename")
             argv[gi], argv[fi] = '"Geo1"', '""'
             variants.append(("name-empty:filename=filename", argv, 1, fi, "filename", "name-empty-overwrite"))
+        if has_status and name not in C07.HAND:
+            variants += bound_variants(name, params, vals)
         body = ["static int call_%s(int v) {" % name, "  switch (v) {"]
         for k, (desc, argv, must, pos, pname, cls) in enumerate(variants):
             if name in C07.HAND:
@@ -356,6 +463,8 @@ def judge(c, e, mode, must=1):
         bad.append("error status with an EMPTY message")
     if c.get("view") == "CHANGED":
         bad.append("session view changed")
+    if c.get("sel") == "CHANGED" and c.get("st") not in (None, "0"):
+        bad.append("selection state changed (current position / configuration)")
     if c.get("tree") not in ("same",):
         bad.append("file content %s" % c.get("tree"))
     if mode == 0 and c.get("file") == "CHANGED":
@@ -437,18 +546,30 @@ TOLERANT_COUNTERS = {"cg_ncoords", "cg_nholes", "cg_nconns", "cg_n1to1", "cg_n1t
 
 
 # ------------------------------------------------------------------------------------------------ selection of cases
-def select_cases(entries, rng, tier, frac_entries=1.0, all_classes=True, only_valid=False, probes=False):
-    """-> [(entry index, variant)] : which cases a pass runs (probes: the may-be-valid small indices as well)"""
+SELECTORS = re.compile(r"zconn|cg_goto|cg_gorel|cg_gopath|cg_golist|cg_where|cg_grid_|cg_ngrids")
+
+
+def select_cases(entries, rng, tier, frac_entries=1.0, all_classes=True, only_valid=False, probes=False, bounds_only=False):
+    """-> [(entry index, variant)] : which cases a pass runs (probes: the may-be-valid small indices as well; bounds_only: the
+    state-driven bound variants of every entry point, and every variant of the entry points that select / navigate)"""
     out = []
     for i, e in enumerate(entries):
+        isb = [var["cls"].startswith("bound") for var in e["variants"]]
+        if bounds_only:
+            if any(isb):
+                out += [(i, 0)] + [(i, v) for v in range(1, len(isb)) if isb[v]]
+            elif SELECTORS.search(e["fn"]):
+                out += [(i, v) for v in range(len(isb)) if e["variants"][v]["must"] != 0 or v == 0]
+            continue
         if frac_entries < 1.0 and rng.random() > frac_entries:
             continue
         out.append((i, 0))
         if only_valid:
             continue
+        out += [(i, v) for v in range(1, len(isb)) if isb[v]]
         groups = {}
         for v, var in enumerate(e["variants"]):
-            if v == 0 or (var["must"] == 0 and not probes):
+            if v == 0 or isb[v] or (var["must"] == 0 and not probes):
                 continue
             groups.setdefault((var["pos"], family(var["cls"]), var["must"] == 0), []).append(v)
         for g, vs in groups.items():
@@ -559,8 +680,12 @@ def run(ck):
                "silent": set(L.get("known_silent", [])), "unclaimed": set(L.get("known_unvalidated", []))}
     new_static = {k: sorted(set(L.get(k, [])) - excused[k]) for k in excused}       # functions that newly fail an obligation
     new_fns = sorted({x.split(":")[0] for v in new_static.values() for x in v})
+    # listed exceptions that the current sources no longer need (a repaired entry point): reported, never an error --
+    # the list in Validate.v is then to be shortened (notes/C12-fixes/Validate-after-fixes.diff)
+    stale = {k: sorted((excused[k] - (set(L.get("revalidating_wrappers", [])) if k == "late" else set())) - set(L.get(k, []))) for k in excused}
     ck.extra["translator"] = dict(info, entry_points=len(d["api"]), in_domain=len(dom), late=len(L.get("late", [])), tolerant=len(L.get("tolerant", [])),
                                   silent=len(L.get("silent", [])), unclean_getters=L.get("unclean_getters", []), newly_failing=new_static,
+                                  listed_but_no_longer_failing=stale,
                                   mirror_disagreement=tie_broken, claims=sum(len(v) for v in claims.values()),
                                   entry_points_with_mode_gate=sum(1 for v in modegates.values() if v))
     ck.cov["trusted_base"] = [
@@ -603,23 +728,27 @@ def run(ck):
 
     # ---- the property's own oracle
     rng = ck.rng
+    BO = "bounds"      # a pass of the state-driven bounds (+ the selecting / navigating entry points) only
     if big:
         plan = [("adf", "rich12", "modify", 1.0, True, False), ("adf", "bare12", "modify", 1.0, True, False), ("adf", "unstr", "modify", 1.0, True, False),
+                ("adf", "str2d", "modify", 1.0, True, False), ("hdf5", "str2d", "modify", BO, True, False), ("adf", "str2d", "read", BO, True, False),
+                ("adf", "rich12", "write", BO, True, False),
                 ("adf", "rich12", "read", 1.0, True, False), ("adf", "unstr", "read", 0.5, True, False), ("adf", "bare12", "read", 0.5, True, False),
                 ("hdf5", "rich12", "modify", 0.55, True, False), ("hdf5", "bare12", "modify", 1.0, True, False), ("hdf5", "unstr", "modify", 0.5, True, False),
                 ("hdf5", "rich12", "read", 0.25, True, False), ("hdf5", "unstr", "read", 0.25, False, False),
                 ("adf", "bare12", "write", 1.0, True, False), ("hdf5", "bare12", "write", 0.5, True, False)]
     else:
         plan = [("adf", "rich12", "modify", 1.0, False, False), ("adf", "bare12", "modify", 1.0, False, False),
+                ("adf", "unstr", "modify", BO, False, False), ("adf", "str2d", "modify", BO, False, False), ("hdf5", "rich12", "modify", BO, False, False),
                 ("hdf5", "rich12", "modify", 0.12, False, False), ("hdf5", "bare12", "modify", 0.2, False, False),
                 ("adf", "unstr", "read", 0.2, False, False), ("adf", "bare12", "write", 0.3, False, False)]
     findings, observations, dyn = {}, {}, {"passes": [], "cases": 0, "sanitizer_reports": 0}
     valid_ok, rejected, raw = {}, {}, []
     for (b, st, mode, frac, allc, onlyv) in plan:
         t0 = time.time()
-        cases = select_cases(entries, rng, ck.tier, frac, allc, onlyv, probes=big and st == "rich12" and b == "adf")
+        cases = select_cases(entries, rng, ck.tier, 1.0 if frac == BO else frac, allc, onlyv, probes=big and st == "rich12" and b == "adf", bounds_only=frac == BO)
         rs = run_cases(exe, tm[(b, st)], work, b, MODES[mode], cases, "%s_%s_%s" % (b, st, mode))
-        cfg = "%s/%s/%s" % (b, st, mode)
+        cfg = "%s/%s/%s%s" % (b, st, mode, "/bounds" if frac == BO else "")
         dyn["passes"].append({"config": cfg, "cases": len(rs), "wall_s": round(time.time() - t0, 1)})
         dyn["cases"] += len(rs)
         ok_here = {c["name"] for c in rs if c["v"] == 0 and c.get("st") == "0" and c.get("out") == "ok"}
